@@ -62,7 +62,7 @@ bool emptyRef(const Iv& i) { return i.lo > i.hi || (i.lo == i.hi && !(i.il && i.
 }  // namespace
 
 // ------------------------------------------------------------------ L1 membership (random)
-LAW(L1_membership, RC, 20000, 1000000, 16, "test value on a bound, within 1 ulp of it, or equal bounds") {
+LAW(L1_membership, RC, 20000, 1000000, 64, "test value on a bound, within 1 ulp of it, or equal bounds") {
   Iv i = genIv(c);
   auto ic = mk(i);
   c.desc << "interval " << show(i);
@@ -110,7 +110,7 @@ LAW(L3_emptiness_enum, ENUM, 0, 0, 0, "equal bounds with at least one open end, 
   CHECK(anyAcc == !e, "internal: grid witness disagrees with emptyRef for " << show(i));
 }
 
-LAW(L3_emptiness, RC, 10000, 300000, 8, "equal bounds or lo>hi") {
+LAW(L3_emptiness, RC, 10000, 300000, 24, "equal bounds or lo>hi") {
   Iv i = genIv(c);
   if (c.oneIn(3)) i.hi = i.lo;
   if (std::isinf(i.lo) && i.lo == i.hi) throw vf::Skip();
